@@ -424,5 +424,20 @@ func histCase(s *session, r *hx.Rand, i int) {
 		sc.slot += step
 		sc.value = append([]byte(fmt.Sprintf("value-%d-", k)), r.Bytes(8)...)
 	}
+	// late echoes: messages of the last duties come again one, two, or about an epoch of slots later (the window of
+	// attester / aggregator messages is 34 slots): what the validator remembers of a signer must not fade while a
+	// message of that signer can still be inside its window
+	if len(sent) > 0 && r.Chance(2, 3) {
+		for j := 0; j < 1+r.Intn(3); j++ {
+			back := r.Intn(6)
+			if back >= len(sent) {
+				back = len(sent) - 1
+			}
+			old := cloneDraft(sent[len(sent)-1-back])
+			old.sec += int64(hx.Pick(r, 1, 2, 31, 32, 33, 33, 34, 34, 35, 36)) * slotSeconds
+			s.out.Count("hist_late_echo")
+			s.step(old.build())
+		}
+	}
 	s.out.End()
 }
